@@ -136,10 +136,14 @@ Definition act_w (v : lstate) : list lstate :=
   let w := l_w v in let h := l_sh v in
   match f_ph w with
   | LwDrainPos =>
-      let wa := f_watch w || f_inq w in
-      let v0 := w_w v (mkWf false wa wa (f_adv w) LwIter) in
-      [v0] ++ (if wa then [w_w v (mkWf false wa true (f_adv w) (LwAt LGet)); w_w v (mkWf false wa false (f_adv w) (LwAt LGet))]
-               else [w_w v (mkWf false wa false (f_adv w) LwPub)])
+      (* one round of pulls takes at most MAX_QUEUE_BULKSIZE entries: u is taken (t) and/or stays queued (r) *)
+      flat_map (fun tr : bool * bool =>
+                  let '(t, r) := tr in
+                  let wa := f_watch w || t in
+                  [w_w v (mkWf r wa wa (f_adv w) LwIter)]
+                  ++ (if wa then [w_w v (mkWf r wa true (f_adv w) (LwAt LGet)); w_w v (mkWf r wa false (f_adv w) (LwAt LGet))]
+                      else [w_w v (mkWf r wa false (f_adv w) LwPub)]))
+               (if f_inq w then [(true, false); (false, true); (true, true)] else [(false, false)])
   | LwIter => iter_advs v
   | LwAt LGet => if h_proc h then [w_w v (wf_ph w (LwAt LPoll))] else flat_map iter_advs (drop_watch v)
   | LwAt LPoll => match h_world h with
